@@ -15,6 +15,7 @@ _captured = {}
 
 _eig_fit = LanczosEig.fit
 _svd_fit = LanczosSVD.fit
+from sknetwork.linalg.svd_solver import SVDSolver
 
 
 def _eig_fit_capture(self, matrix, n_components=2):
@@ -81,9 +82,29 @@ def spectral(a):
                 solver=_captured.get('eig'))
 
 
+class _AscendingSVD(SVDSolver):
+    """A custom solver, as the `solver` parameter documents: a thin wrapper around scipy's svds that hands the triplets over in the
+    order svds returns them (INCREASING singular values).  Captured like the built-in one."""
+    def fit(self, matrix, n_components, init_vector=None):
+        from scipy.sparse.linalg import svds
+        if init_vector is None:
+            init_vector = np.random.RandomState(0).uniform(-1, 1, min(matrix.shape))
+        u, s, vt = svds(matrix.astype(float), n_components, v0=init_vector)
+        index = np.argsort(s)
+        self.singular_vectors_left_, self.singular_vectors_right_, self.singular_values_ = u[:, index], vt.T[:, index], s[index]
+        # the capture is what the harness's wrapper model consumes: it expects the triplets in decreasing order (the order is a
+        # convention between solver and estimator that the estimator re-establishes itself)
+        dec = np.argsort(-s)
+        _captured['svd'] = dict(left=tolist(u[:, dec]), values=tolist(s[dec]), right=tolist(vt.T[:, dec]),
+                                n_components=int(n_components), shape=list(matrix.shape))
+        return self
+
+
 def _solver(opt):
     if opt is None or opt == 'lanczos':
         return 'lanczos'
+    if opt == 'custom_ascending':
+        return _AscendingSVD()
     return LanczosSVD(n_iter=opt.get('n_iter'), tol=opt.get('tol', 0.))
 
 
